@@ -107,6 +107,15 @@ def gen(rng, flavour):
                                       cfg['bdur'] / 2, cfg['bdur'] + U, 3 * BT + cfg['bdur']])
             c['how'] = rng.choice(['cancel', 'timeout', 'waitfor'])
         calls.append(c)
+    if flavour == 'c10' and rng.random() < 0.2:
+        # impatient callers: some (sometimes all) give up before their batch is handed over; what the batch function is
+        # given must still be 1..max_batch_size items in arrival order
+        everyone = rng.random() < 0.4
+        for c in calls:
+            if everyone or rng.random() < 0.3:
+                c['cancel'] = rng.choice([0, BT / 4, BT / 2, BT - BT / 16])
+                c['how'] = rng.choice(['cancel', 'timeout', 'waitfor'])
+        cfg['impatient'] = True
     if flavour == 'c11' and rng.random() < 0.15:
         # a caller keeps the loop busy with synchronous work right before it calls (timers run late); only the clauses
         # that do not depend on the loop being on time are judged for these programs
@@ -320,6 +329,9 @@ class BatcherHarness:
                         except BaseException as e:   # noqa
                             emit('ret', cid, 'other', (type(e).__name__, str(e)[:80]))
                     await aio.sleep(cfg['ret'] + 2 * BT)
+                    if cfg.get('impatient'):
+                        # the callers may all be gone long before their batches have been processed
+                        await aio.sleep((len(prog['calls']) + 2) * (BT + cfg['bdur'] + 6 * cfg['idur'] + cfg.get('tail', 0)))
                     emit('end')
 
                 loop.run_until_complete(main_coro())
